@@ -888,7 +888,7 @@ func generate(cfg *hx.Config, rng *hx.RNG, concOnly bool) []genCase {
 	genConc(cfg, rng, add, 6*mult, false)
 	// 7. concurrent requesters sharing ONE TLSForHost config and ONE TLS() config, tight loops, and across an expiry
 	if cfg.Thorough() {
-		genShared(cfg, rng, add, 20, 8, 4000, false)
+		genShared(cfg, rng, add, 12, 6, 1500, false)
 	} else {
 		genShared(cfg, rng, add, 4, 2, 2000, false)
 	}
@@ -970,18 +970,21 @@ func genShared(cfg *hx.Config, rng *hx.RNG, add func(string, []string), nham, ne
 			in[1], in[3], in[4] = "v2000", "n45", "p80"
 			nth = 8
 		}
-		mkop := func(form int, t int) string {
+		mkop := func(form int, t int, pick int) string {
+			if pick < 0 {
+				pick = r.Intn(len(snis))
+			}
 			q := reqOp{kind: 'G', scope: "i", api: "F", fb: fb}
 			switch form {
 			case 0: // no SNI: the fallback names the host
 				q.vname = fbn
 				cfg.Count("shared=fallback")
 			case 1: // SNI through the shared TLSForHost config
-				x := snis[r.Intn(len(snis))]
+				x := snis[pick]
 				q.sni, q.vname = x.v, x.v
 				cfg.Count("shared=sni-forhost")
 			default: // SNI through the shared TLS() config
-				x := snis[r.Intn(len(snis))]
+				x := snis[pick]
 				q.api, q.fb, q.sni, q.vname = "T", "", x.v, x.v
 				cfg.Count("shared=sni-TLS")
 			}
@@ -994,12 +997,13 @@ func genShared(cfg *hx.Config, rng *hx.RNG, add func(string, []string), nham, ne
 		for t := 0; t < nth; t++ {
 			in = append(in, "T")
 			// threads alternate so that fallback and SNI requesters always coexist on the TLSForHost config
-			in = append(in, mkop(t%3, t))
+			in = append(in, mkop(t%3, t, -1))
 			if r.Bool() {
-				in = append(in, mkop(r.Intn(3), t))
+				in = append(in, mkop(r.Intn(3), t, -1))
 			}
 		}
-		in = append(in, "F", mkop(0, -1), mkop(1, -1), mkop(2, -1))
+		// after the join: one lookup per name (distinct names, so a hit can only be an object a requester received)
+		in = append(in, "F", mkop(0, -1, 0), mkop(1, -1, 0), mkop(2, -1, 1))
 		_ = fbc
 		if expiry {
 			cfg.Count("class=shared-expiry")
